@@ -15,7 +15,7 @@ func init() {
 	register(&Def{
 		ID:    "C19",
 		Level: "exploration",
-		Rule: "one shared buffer per run (5 element types, channel counts {1,2,3,8}, 24..96 frames, with spare capacity). Phase A: R<=16 readers run every read-only entry point on the whole buffer in seeded orders (Sample, Len, Cap, Length, Capacity, Channels, BitDepth, BufferIndex, Read, ReadStriped, Slice and nested Slice, Channel(c) accessors and Sample, use as a conversion source into a private destination). Phase B: readers confined to a read-only frame range while W<=8 writers each obtain shared.Slice(lo,hi) concurrently and write only inside it (SetSample, Write, WriteStriped, conversion destination, channel-view SetSample); random yields; GOMAXPROCS in {1,4,16}; " +
+		Rule: "one shared buffer per run (5 element types, channel counts {1,2,3,8}, 24..96 frames, with spare capacity). Phase A: R<=16 readers run every read-only entry point on the whole buffer in seeded orders (Sample, Len, Cap, Length, Capacity, Channels, BitDepth, BufferIndex, Read, ReadStriped, Slice and nested Slice also up to the capacity, Channel(c) accessors and Sample, use as a conversion source into a private destination, use as the source of an Append that grows a private buffer which its owner then overwrites); the shared buffer is freshly allocated, a Slice view, grown by Append or an untouched pool buffer. Phase B: readers confined to a read-only frame range while W<=8 writers each obtain shared.Slice(lo,hi) concurrently and write only inside it (SetSample, Write, WriteStriped, conversion destination, channel-view SetSample); random yields; GOMAXPROCS in {1,4,16}; " +
 			"oracles: the Go race detector (race build; goroutines share nothing with the monitor while running) and, in both builds, every reader's result digest and the final buffer contents compared with a sequential execution of the same seeded work; " +
 			"distinct = distinct (configuration, goroutine role, seeded operation order) work lists; non-trivial = every work list (each executes library code on the shared buffer concurrently with others)",
 		Assume: []string{"the race detector only reports races on executed paths; schedules are those the Go scheduler produced", "readers and writers of the same frames are outside the property and never generated"},
@@ -113,6 +113,25 @@ func (e *c19env) readerWork(b dyn.Buf, limit int, spareOK bool, r *core.Rand, nO
 					h.U64(cv.Sample(i).Bits())
 					h.Int(cv.BufferIndex(0, i))
 				}
+			}
+		case 9:
+			// source of an Append into a private, initially too small buffer,
+			// which its owner then overwrites
+			s := r.Range(0, limit)
+			en := r.Range(s, limit)
+			src := b.Slice(s, en)
+			if spareOK && r.Chance(1, 3) {
+				src = b
+			}
+			dcap := r.Pick(0, 1, 2, en-s+2)
+			dst := e.t.Alloc(signal.Allocator{Channels: ch, Length: min(dcap, r.Pick(0, 0, 1)), Capacity: dcap})
+			dst.Append(src)
+			h.Int(dst.Len())
+			for i := 0; i < dst.Len(); i += 1 + dst.Len()/9 {
+				h.U64(dst.Sample(i).Bits())
+			}
+			for i := 0; i < dst.Len(); i++ {
+				dst.SetSample(i, e.t.FromInt(int64(7+i%5)))
 			}
 		default:
 			// conversion source into a private destination of `limit` frames
@@ -241,6 +260,7 @@ func runC19(c *core.Ctx) {
 		}
 		asWindow := ci%2 == 1 // the shared buffer is itself a Slice view of a larger buffer
 		asGrown := ci%4 == 2  // the shared buffer reached its size through a growing Append
+		asPooled := ci%8 == 4 // the shared buffer comes from a pool allocator and no library call has written to it
 		if asGrown && !large {
 			ch = []int{3, 5, 7}[r.Intn(3)]
 		}
@@ -264,7 +284,7 @@ func runC19(c *core.Ctx) {
 		if large {
 			R, W = min(R, 4), min(W, 3)
 		}
-		cfgD := map[string]any{"type": t.Name, "channels": ch, "frames": frames, "GOMAXPROCS": procs, "readers": R, "writers": W, "build": c.Mode, "shared_buffer_is_a_slice_view": asWindow}
+		cfgD := map[string]any{"type": t.Name, "channels": ch, "frames": frames, "GOMAXPROCS": procs, "readers": R, "writers": W, "build": c.Mode, "shared_buffer_is_a_slice_view": asWindow, "shared_buffer_grown_by_append": asGrown, "shared_buffer_from_pool": asPooled}
 		runtime.GOMAXPROCS(procs)
 		yield := func(rr *core.Rand) func() {
 			return func() {
@@ -283,6 +303,12 @@ func runC19(c *core.Ctx) {
 				b := t.Alloc(signal.Allocator{Channels: ch, Length: 1, Capacity: 1})
 				b.Append(t.Alloc(signal.Allocator{Channels: ch, Length: frames - 1, Capacity: frames - 1}))
 				c19Fill(b, t) // through the hook: no accessor of the grown buffer has been called yet
+				return b
+			}
+			if asPooled {
+				pa := t.PoolAlloc(signal.Allocator{Channels: ch, Length: frames, Capacity: frames + 5})
+				b := pa.Get()
+				c19Fill(b, t) // through the hook
 				return b
 			}
 			if asWindow {
@@ -304,6 +330,9 @@ func runC19(c *core.Ctx) {
 		}
 		if asGrown {
 			c.Obs("configurations_sharing_a_buffer_grown_by_append", 1)
+		}
+		if asPooled {
+			c.Obs("configurations_sharing_an_untouched_pool_buffer", 1)
 		}
 		// ---------------- phase A: readers only
 		{
